@@ -9,11 +9,12 @@ with unknown or damaged files mixed in.
 -/
 namespace Pff.Rfigc
 
-/-- neither hash collides on the contents involved -/
+/-- the PAIR of hashes does not collide on the contents involved (two different contents may share
+their md5, or their sha1 — md5 collisions exist — but not both) -/
 def NoCollision (E : Env) (cs : List Bytes) : Prop :=
-  ∀ a ∈ cs, ∀ b ∈ cs, ((E.H a).1 = (E.H b).1 ∨ (E.H a).2 = (E.H b).2) → a = b
+  ∀ a ∈ cs, ∀ b ∈ cs, E.H a = E.H b → a = b
 
-/-- Under pairwise distinct recorded contents and no hash collision among recorded and scraped
+/-- Under pairwise distinct recorded contents and no collision of the hash PAIR among recorded and scraped
 contents: the output folder holds, at each recorded path whose content was found among the
 scraped files, exactly that content with the recorded modification time — and nothing else. -/
 theorem C17_recover (E : Env) (orig : Tree) (scraped : List Bytes)
@@ -45,6 +46,15 @@ theorem C17_unknown_ignored (E : Env) (orig : Tree) (scraped : List Bytes) (c : 
     scrapeWrites E (genDb E orig) (c :: scraped) = scrapeWrites E (genDb E orig) scraped := by
   refine scrapeWrites_cons_unknown E orig scraped c (fun f hf e => ?_) hc
   exact hcoll _ (List.mem_append_left _ (List.mem_map_of_mem hf)) _
-    (List.mem_append_right _ List.mem_cons_self) (Or.inl e)
+    (List.mem_append_right _ List.mem_cons_self) e
+
+/-- regression witness of the repaired defect: two recorded files with different contents and the
+SAME md5 (sha1 different) are both recovered; with two separate lookups the first was lost -/
+theorem C17_md5_twins_recovered :
+    let E : Env := { H := fun c => (7, c.sum), extOf := fun _ => "", roundSec := id }
+    let orig : Tree := [{ path := "a", content := [1], mtime := 0 }, { path := "b", content := [2], mtime := 0 }]
+    (scrapeWrites E (genDb E orig) [[1], [2]]).map (·.path) = ["a", "b"] := by
+  intro E orig
+  decide
 
 end Pff.Rfigc
